@@ -135,6 +135,8 @@ Qed.
 
 (* every codec step: one model event (the section), then the eager schedule.  [dec h e e0 rets]: the harness event e is
    accepted in h, its section is the model event e0 and the API call returns rets *)
+Definition async0 : async := {| as_nonce := 0; as_pc := ARan |}.
+
 Inductive dec (h : hst) : list N -> ev -> list N -> Prop :=
 | D_setctx c : dec h [1; c]%N (ESetCtx (n2n c)) [nb (snd (set_context (hs h) (n2n c)))]
 | D_addref k : N.leb k 2 = true -> dec h [2; k]%N (EAddRef (n2n k)) [nb (panicked (add_ref repaired (hs h) (kind_of (n2n k))))]
@@ -142,7 +144,8 @@ Inductive dec (h : hst) : list N -> ev -> list N -> Prop :=
     dec h [3; r]%N (ERelease (n2n r)) []
 | D_relsect a x : nth_error (relacts (hs h)) (n2n a) = Some x -> ra_pc x = RGate -> dec h [4; a]%N (ERelSect (n2n a)) []
 | D_released g x : nth_error (gs (hs h)) (n2n g) = Some x -> gent x = true -> dec h [5; g]%N (EReleased (n2n g)) []
-| D_async k a : nth_parked (asyncs (hs h)) (n2n k) 0 = Some a -> dec h [6; k]%N (EAsync a) []
+| D_async k g a : nth_parked (asyncs (hs h)) (n2n k) 0 = Some a -> n2n g < length (gs (hs h)) ->
+    gnonce (getg (hs h) (n2n g)) = as_nonce (nth a (asyncs (hs h)) async0) -> dec h [6; k; g]%N (EAsync a) []
 | D_proceed g en x : nth_error (gs (hs h)) (n2n g) = Some x -> gpcv x = GGate0 -> dec h [7; g; en]%N (EProceed (n2n g) (nz en)) []
 | D_ret4 g hr er x : nth_error (gs (hs h)) (n2n g) = Some x -> gpcv x = GInRes -> res_ok er 0 = true ->
     dec h [8; g; hr; er]%N (EResReturn (n2n g) (res_val (hconst h) g 0) (nz hr) (n2n er)) []
@@ -208,8 +211,6 @@ Proof.
     destruct (Nat.eqb_spec (n2n n) 0) as [E0|E0]; [|reflexivity]. apply N.leb_le in E1. exfalso. unfold n2n in E0. lia.
   - (* 10 *) destruct (N.leb n 4) eqn:El; [|discriminate]. intros H. inversion H. eexists _, _. split; [apply D_cons; exact El|].
     cbn [step]. rewrite (ckind_norm_of n El). reflexivity.
-  - (* 6 *) destruct (nth_parked (asyncs (hs h)) (n2n n) 0) as [a|] eqn:Ea; [|discriminate].
-    intros H. inversion H. eexists _, _. split; [eapply D_async; eauto | reflexivity].
   - (* 12 *) destruct (nth_error (conss (hs h)) (n2n n)) as [x|] eqn:Ex; [|discriminate]. destruct (ww_firepc x) as [[|]|] eqn:Ef; try discriminate.
     intros H. inversion H. eexists _, _. split; [eapply D_fire; eauto | reflexivity].
   - (* 4 *) destruct (nth_error (relacts (hs h)) (n2n n)) as [x|] eqn:Ex; [|discriminate]. destruct (ra_pc x) eqn:Ep; [|discriminate].
@@ -227,6 +228,10 @@ Proof.
       apply orb_true_iff in Er. destruct Er as [Er|Er]; [|apply N.eqb_eq in Er; auto].
       apply orb_true_iff in Er. destruct Er as [Er|Er]; apply N.eqb_eq in Er; auto. }
     intros H. inversion H. eexists _, _. split; [eapply D_cbret; eauto | reflexivity].
+  - (* 6 *) destruct (nth_parked (asyncs (hs h)) (n2n n) 0) as [a|] eqn:Ea; [|discriminate].
+    destruct (Nat.ltb_spec (n2n n0) (length (gs (hs h)))) as [Hl|Hl]; [|discriminate]. cbn [andb].
+    destruct (Nat.eqb_spec (gnonce (getg (hs h) (n2n n0))) (as_nonce (nth a (asyncs (hs h)) {| as_nonce := 0; as_pc := ARan |}))) as [En|En]; [|discriminate].
+    intros H. inversion H. eexists _, _. split; [eapply D_async; eauto | reflexivity].
   - (* 8, four fields *) intros H. destruct (R8 _ _ _ _ H) as [x [A1 [A2 [A3 A4]]]]. eexists _, _. split; [eapply D_ret4; eauto | exact A4].
   - (* 8, five fields *) intros H. destruct (R8 _ _ _ _ H) as [x [A1 [A2 [A3 A4]]]]. eexists _, _. split; [eapply D_ret5; eauto | exact A4].
 Qed.
